@@ -166,3 +166,33 @@ class Stages:
             return runner_with_crop(crop)
         finally:
             bc.evaluate_correlations = o_eval
+
+
+def half_spectrum_objective(mask, data, cen, us):
+    """What the DFT upsampling maximises (known finding D15), re-implemented in float64 from the definition: the modulus of
+    the *half-spectrum* sum  | sum_{k1, 0 <= k2 <= W/2} S[k1, k2] exp(2 pi i (f1[k1] y + f2[k2] x)) |  with S the product of the
+    rfft2 spectra of mask and data, on the grid y = cen_y - ceil(H/2) + (i - d)/us, x likewise, i = 0 .. ceil(1.5 us) - 1,
+    d = fix(ceil(1.5 us)/2).  Returns (ys, xs, values): candidate positions in map coordinates and the objective."""
+    mask = np.asarray(mask, dtype=np.float64)
+    data = np.asarray(data, dtype=np.float64)
+    h, w = data.shape
+    spec = np.fft.rfft2(mask) * np.fft.rfft2(data)
+    region = int(np.ceil(us * 1.5))
+    d = int(np.fix(region / 2.0))
+    centre = np.ceil(np.array([h, w]) / 2)
+    off = (np.arange(region) - d) / us
+    ys = cen[0] - centre[0] + off
+    xs = cen[1] - centre[1] + off
+    ky = np.exp(2j * np.pi * np.fft.fftfreq(h)[None, :] * ys[:, None])
+    kx = np.exp(2j * np.pi * np.fft.rfftfreq(w)[None, :] * xs[:, None])
+    vals = np.abs(ky @ spec @ kx.T)
+    return ys + centre[0], xs + centre[1], vals
+
+
+def is_half_spectrum_maximiser(mask, data, cen, us, refined, rel=2e-4):
+    """the reported refined position lies on the candidate grid around `cen` and (nearly) maximises the objective above"""
+    ys, xs, vals = half_spectrum_objective(mask, data, cen, us)
+    i, j = int(np.argmin(np.abs(ys - refined[0]))), int(np.argmin(np.abs(xs - refined[1])))
+    if abs(ys[i] - refined[0]) > 1e-3 or abs(xs[j] - refined[1]) > 1e-3:
+        return False
+    return bool(vals[i, j] >= vals.max() * (1 - rel))
